@@ -162,7 +162,9 @@ pub fn stages(args: &Args, mode: Mode, allow_orient: bool) -> Vec<Stage> {
         max_px: if sm { max_px.min(60) } else { max_px },
         allow_clear: true,
         allow_orient,
-        allow_misc: false,
+        // scroll / tearing / sleep / wake between the drawing calls when orientation changes are
+        // allowed too ("interactions between features"); none of them may disturb placement
+        allow_misc: allow_orient,
         allow_test_image: true,
         allow_set_pixels: mode == Mode::InBounds,
     };
@@ -198,6 +200,15 @@ pub fn stages(args: &Args, mode: Mode, allow_orient: bool) -> Vec<Stage> {
         cfg: CfgOpts { external: true, l1: false, l2: true, max_l2_area: 128 * 128 },
         prog: po(6, 128 * 128),
         n: args.n(400, 8000),
+    });
+    // Display::release() and a second display (often another model / colour depth of the same
+    // framebuffer size) built on the same interface object, then more drawing
+    v.push(Stage {
+        name: "rebuild",
+        mode,
+        cfg: CfgOpts { external: true, l1: true, l2: true, max_l2_area: 24 * 24 },
+        prog: po(5, 600),
+        n: args.n(4000, 100_000),
     });
     // full-size built-in panels at pin / SPI level (a clear is 76 800 … 153 600 pixels)
     if !sm {
@@ -275,6 +286,10 @@ pub fn run_draw(args: &Args, prop: &'static str, mode: Mode, allow_orient: bool,
             if !cfg.tr.is_l2() {
                 // a clear of a 65535x65535 window is one run event at L1
                 po.allow_clear = true;
+            }
+            if st.name == "rebuild" {
+                rebuild_case(args, prop, &st, idx, &mut rng, cfg, po, want, a);
+                return;
             }
             let prog = gen::gen_program(&mut rng, &cfg, &po);
             let prog = fix_clear_budget(prog, &cfg, &po);
@@ -420,4 +435,159 @@ pub fn c08(args: &Args) -> Acc {
     let b = run_draw(args, "C08/out", Mode::Hostile, true, &[Attr::Framing]);
     a.merge(b);
     a
+}
+
+
+/// models that can follow each other on one interface (same framebuffer size)
+fn rebuild_partners(m: crate::rig::ModelId) -> Vec<crate::rig::ModelId> {
+    use crate::rig::ModelId::*;
+    let groups: [&[crate::rig::ModelId]; 3] = [
+        &[ILI9341Rgb565, ILI9341Rgb666, ST7789, Ext240x320c666],
+        &[ILI9486Rgb565, ILI9486Rgb666, ILI9488Rgb565, ILI9488Rgb666, ST7796],
+        &[ILI9342CRgb565, ILI9342CRgb666],
+    ];
+    for g in groups {
+        if g.contains(&m) {
+            return g.to_vec();
+        }
+    }
+    vec![m]
+}
+
+#[allow(clippy::too_many_arguments)]
+fn rebuild_case(args: &Args, _prop: &str, st: &Stage, idx: u64, rng: &mut Rng, mut cfg: DispCfg, po: ProgOpts, want: &[Attr], a: &mut Acc) {
+    use crate::rig::ModelId::*;
+    // models the rebuild dispatch knows
+    let wired = [GC9107, GC9A01, ILI9341Rgb565, ILI9341Rgb666, ILI9342CRgb565, ILI9342CRgb666, ILI9486Rgb565, ILI9486Rgb666, ILI9488Rgb565, ILI9488Rgb666, RM67162, ST7735s, ST7789, ST7796, Ext16x16, Ext64x48, Ext256x256, Ext240x320c666, ExtQuirk];
+    if !wired.contains(&cfg.model) {
+        cfg.model = *rng.pick(&wired);
+    }
+    // second configuration: a partner model that the transport can drive
+    let partners: Vec<crate::rig::ModelId> = rebuild_partners(cfg.model)
+        .into_iter()
+        .filter(|m| cfg.tr.type_checks(m.bits()) && (!m.is_builtin() || m.supports(cfg.tr.kind())))
+        .collect();
+    if !cfg.tr.type_checks(cfg.model.bits()) || (cfg.model.is_builtin() && !cfg.model.supports(cfg.tr.kind())) || partners.is_empty() {
+        cfg.tr = crate::rig::Tr::P8;
+    }
+    let partners: Vec<crate::rig::ModelId> = rebuild_partners(cfg.model)
+        .into_iter()
+        .filter(|m| cfg.tr.type_checks(m.bits()) && (!m.is_builtin() || m.supports(cfg.tr.kind())))
+        .collect();
+    let (fw, fh) = cfg.model.fb();
+    let max_area = if cfg.tr.is_l2() { st.cfg.max_l2_area } else { 4096 };
+    let (w, h, ox, oy) = gen::gen_window(rng, fw, fh, max_area);
+    cfg.w = w;
+    cfg.h = h;
+    cfg.ox = ox;
+    cfg.oy = oy;
+    cfg.spi_buf = gen::spi_buf_len(rng, 18).min(512).max(3);
+    let mut cfg2 = cfg.clone();
+    cfg2.model = *rng.pick(&partners);
+    cfg2.ori = crate::spec::Ori(rng.below(8) as u8);
+    cfg2.bgr = rng.bool();
+    cfg2.refresh = rng.below(4) as u8;
+    cfg2.invert = rng.bool();
+    cfg2.rst = rng.bool();
+    cfg2.order = if rng.bool() { 0 } else { rng.below(10_080) as u16 };
+    let (w2, h2, ox2, oy2) = gen::gen_window(rng, fw, fh, max_area);
+    cfg2.w = w2;
+    cfg2.h = h2;
+    cfg2.ox = ox2;
+    cfg2.oy = oy2;
+    let mut po = po;
+    po.allow_test_image = false;
+    po.max_px = po.max_px.min(max_area);
+    po.allow_clear = true;
+    let mut prog1 = gen::gen_program(rng, &cfg, &po);
+    let mut prog2 = gen::gen_program(rng, &cfg2, &po);
+    // now and then the last solid fill before the release and the first one after it use colours
+    // whose wire bytes overlap ([a, b] in 16 bpp, [0, a, b] in 18 bpp): an interface that
+    // remembers "my buffer already holds this fill" must not be fooled across displays
+    if rng.chance(1, 3) {
+        let a8 = (rng.next() as u32 & 0xFC).max(4);
+        let b8 = rng.next() as u32 & 0xFC;
+        let c565 = a8 << 8 | b8;
+        let c666 = (a8 >> 2) << 6 | (b8 >> 2); // r = 0
+        let tag = |bits: u8| if bits == 16 { c565 } else { c666 };
+        prog1.push(Op::FillSolid { rect: crate::ops::Rect { x: 0, y: 0, w: 1, h: 1 }, c: tag(cfg.model.bits()) });
+        prog2.insert(0, Op::FillSolid { rect: crate::ops::Rect { x: 0, y: 0, w: 1, h: 1 }, c: tag(cfg2.model.bits()) });
+    }
+    let cj = || J::obj().with("config", cfg.to_json()).with("program", gen::prog_json(&prog1)).with("rebuilt_as", cfg2.to_json()).with("program_after_rebuild", gen::prog_json(&prog2));
+    a.seen("rebuild_pairs", format!("{}->{}", cfg.model.name(), cfg2.model.name()));
+    a.seen("transports", cfg.tr.name());
+    a.seen("models", cfg.model.name());
+    a.seen("orientations", cfg.ori.name());
+    let _ = args;
+    let mut s = match Session::open(&cfg) {
+        Opened::Ready(s) => s,
+        Opened::Failed { init, .. } => {
+            a.violate(st.name, idx, "init", format!("{:?}", init), cj());
+            return;
+        }
+    };
+    let mut bad = false;
+    let judge = |a: &mut Acc, phase: &str, op: &Op, f: &Finding| -> bool {
+        if want.contains(&attr(f)) {
+            a.violate(st.name, idx, format!("{}{}/{}", phase, op.name(), f.kind()), f.describe(), cj());
+            true
+        } else {
+            false
+        }
+    };
+    for op in &prog1 {
+        let rep = s.step(op);
+        for f in &rep.findings {
+            bad |= judge(a, "", op, f);
+        }
+        if bad || rep.result != crate::rig::CallResult::Ok {
+            a.case_hash(case_hash(&cfg, &prog1), false);
+            return;
+        }
+    }
+    let mut s = match s.rebuild(&cfg2) {
+        Opened::Ready(s) => s,
+        Opened::Failed { init, .. } => {
+            a.violate(st.name, idx, "after-release/init", format!("init on the released interface failed: {:?}", init), cj());
+            return;
+        }
+    };
+    a.count("rebuilds", 1);
+    let init_f = std::mem::take(&mut s.init_findings);
+    for f in &init_f {
+        bad |= judge(a, "after-release/init-", &Op::Wake, f);
+    }
+    // the second init must have programmed the controller for the new options
+    if s.panel.madctl != s.want_madctl(cfg2.ori) || s.panel.colmod != crate::spec::colmod(cfg2.model.bits()) {
+        if want.contains(&Attr::Placement) {
+            bad = true;
+            a.violate(
+                st.name,
+                idx,
+                "after-release/controller-state",
+                format!("after the second init the controller holds address mode {:#04x} (expected {:#04x}) and pixel format {:#04x} (expected {:#04x})", s.panel.madctl, s.want_madctl(cfg2.ori), s.panel.colmod, crate::spec::colmod(cfg2.model.bits())),
+                cj(),
+            );
+        }
+    }
+    if !bad {
+        for op in &prog2 {
+            let rep = s.step(op);
+            for f in &rep.findings {
+                bad |= judge(a, "after-release/", op, f);
+            }
+            if bad || rep.result != crate::rig::CallResult::Ok {
+                break;
+            }
+        }
+    }
+    let mut h = std::collections::hash_map::DefaultHasher::new();
+    cfg.hash(&mut h);
+    prog1.hash(&mut h);
+    cfg2.hash(&mut h);
+    prog2.hash(&mut h);
+    a.case_hash(h.finish(), !bad && s.reffb.stored > 0);
+    if idx < 2 {
+        a.sample(cj().with("stage", "rebuild"));
+    }
 }
